@@ -106,3 +106,19 @@ Proof.
   - exists deleted_user_witness, 0, ([1; 0], []). repeat split; vm_compute; reflexivity.
 Qed.
 Print Assumptions C03_session_request_sees_current_access_with_deletions_refuted.
+
+(* ---------- before 3cadf88 a re-created role lost its channel history in a NAMED collection ---------- *)
+(* REPAIRED in /repo by 3cadf88 (found by C13); about the code BEFORE the repair ([x_edit_role_with false]); the model of
+   the current code is [x_edit_role] = [x_edit_role_with true] (C03_role_history_survives_delete_and_recreate).
+   auth.NewRole / NewRoleNoChannels carried over only the default collection's channel history of a soft-deleted role:
+   in a named collection (xinit false) role 0 with channel 2 is soft-deleted at sequence 2 -- the history records
+   [1, 2] for channel 2 -- and re-created: the old constructors start with an empty history, the repaired ones keep it. *)
+Definition recreate_witness : list xop := [XSetRole 0 (Some [2]) 1; XDelRole 0 false 2].
+
+Theorem C03_recreated_role_lost_named_history_before_3cadf88 :
+  let xs := xrun (xinit false) recreate_witness in
+  entries (g_hist (xr xs 0)) 2 = [(1, 2)] /\
+  entries (g_hist (xr (x_edit_role_with false (x_rebuild_role xs 0) 0 None 3) 0)) 2 = [] /\
+  entries (g_hist (xr (fst (xstep xs (XSetRole 0 None 3))) 0)) 2 = [(1, 2)].
+Proof. cbv zeta. repeat split; vm_compute; reflexivity. Qed.
+Print Assumptions C03_recreated_role_lost_named_history_before_3cadf88.
